@@ -62,12 +62,17 @@ def showPc : PConn → String × Nat
   | .idle => ("I", 0)
   | .live c => (if c.dead then "D" else "L", c.queue.length)
 
+/-- number of events taken from the front of `s` (s' is a suffix of s) -/
+def consumed (s s' : List Ev) : Nat := s.length - s'.length
+
 def runCalls (retries : Nat) : List (Kind × Nat) → World → List Ev → List String → List String
   | [], _, _, acc => acc.reverse
   | (k, tok) :: rest, W, s, acc =>
-    let (o, W', s') := call real retries k tok W s
+    -- the server log is write-only for the model (C03_exec_bound: log' = replicate n tok ++ log); it is emptied
+    -- before each call so that counting stays O(1) on histories of 10^5 calls
+    let (o, W', s') := call real retries k tok { W with log := [] } s
     let (pc, ql) := showPc W'.pc
-    let line := s!"{showOutcome o} {execs tok W' - execs tok W} {pc} {W'.seq} {W'.connects} {s.length - s'.length} {ql}"
+    let line := s!"{showOutcome o} {execs tok W'} {pc} {W'.seq} {W'.connects} {consumed s s'} {ql}"
     match o with
     | .scriptEnd => (("end" :: acc)).reverse
     | _ => runCalls retries rest W' s' (line :: acc)
